@@ -393,22 +393,27 @@ class _Algorithm2D:
                     axis=axis, name='data', ensure_2d=ensure_2d, two_d=True
                 )
             else:
-                y, self.x, self.z = _yxz_arrays(
+                y = _yxz_arrays(
                     data, self.x, self.z, check_finite=self._check_finite, ensure_2d=ensure_2d
-                )
+                )[0]
 
+            if not has_x or not has_z:
+                # set the complete shape first and x and z last so that another thread using
+                # this object never sees x or z without the corresponding shape
+                self._shape = (
+                    y.shape[-2] if not has_x else self._shape[0],
+                    y.shape[-1] if not has_z else self._shape[1]
+                )
+            if not has_z:
+                self.z = np.linspace(-1, 1, y.shape[-1])
             if not has_x:
-                self._shape = (y.shape[-2], self._shape[1])
-                self.x = np.linspace(-1, 1, self._shape[0])
+                self.x = np.linspace(-1, 1, y.shape[-2])
             elif require_unique_xz and not self._validated_x:
                 if np.any(self.x[1:] == self.x[:-1]):
                     raise ValueError('x-values must be unique for the selected method')
                 else:
                     self._validated_x = True
-            if not has_z:
-                self._shape = (self._shape[0], y.shape[-1])
-                self.z = np.linspace(-1, 1, self._shape[1])
-            elif require_unique_xz and not self._validated_z:
+            if has_z and require_unique_xz and not self._validated_z:
                 if np.any(self.z[1:] == self.z[:-1]):
                     raise ValueError('z-values must be unique for the selected method')
                 else:
